@@ -509,9 +509,14 @@ func resolveAnchors(p *Prog) *Anchors {
 	a.Lock = a.methodLike(a.TLock, "lock", func(f *ssa.Function) bool {
 		return f.Signature.Params().Len() == 1 && f.Signature.Results().Len() == 0 && storesBool(f, "true")
 	})
+	// unlock() may have been merged into locked(): the anchor is optional
+	nerr := len(a.errs)
 	a.Unlock = a.methodLike(a.TLock, "unlock", func(f *ssa.Function) bool {
 		return f.Signature.Params().Len() == 0 && f.Signature.Results().Len() == 0 && storesBool(f, "false")
 	})
+	if a.Unlock == nil {
+		a.errs = a.errs[:nerr]
+	}
 	a.Locked = a.methodLike(a.TLock, "locked", func(f *ssa.Function) bool {
 		return f.Signature.Params().Len() == 0 && f.Signature.Results().Len() == 1 && isBool(f.Signature.Results().At(0).Type())
 	})
@@ -550,10 +555,19 @@ func resolveAnchors(p *Prog) *Anchors {
 		fld := fieldByJSON(a.TOptions, tag)
 		return fld != nil && a.p.readFields[f][fld]
 	}
-	a.IsStarve = a.methodLike(a.TController, "isScaleOnStarve", func(f *ssa.Function) bool {
+	// the two override predicates: methods of the controller or plain functions of the package
+	boolPred := func(name string, like func(*ssa.Function) bool) *ssa.Function {
+		nerr := len(a.errs)
+		if f := a.methodLike(a.TController, name, like); f != nil {
+			return f
+		}
+		a.errs = a.errs[:nerr]
+		return a.fnLike(pkgController, name, like)
+	}
+	a.IsStarve = boolPred("isScaleOnStarve", func(f *ssa.Function) bool {
 		return f.Signature.Results().Len() == 1 && isBool(f.Signature.Results().At(0).Type()) && readsOption(f, "scale_on_starve")
 	})
-	a.IsMaxAge = a.methodLike(a.TController, "scaleOnMaxNodeAge", func(f *ssa.Function) bool {
+	a.IsMaxAge = boolPred("scaleOnMaxNodeAge", func(f *ssa.Function) bool {
 		return f.Signature.Results().Len() == 1 && isBool(f.Signature.Results().At(0).Type()) && readsOption(f, "max_node_age") && !readsOption(f, "scale_on_starve")
 	})
 	a.AddTaint = a.fn(pkgK8s, "AddToBeRemovedTaint")
@@ -662,12 +676,8 @@ func resolveAnchors(p *Prog) *Anchors {
 	if a.TryDelete != nil {
 		for _, c := range p.callers[a.TryDelete] {
 			// the grace reaper consults the taint time; the force reaper does not
-			usesTime := false
-			for _, g := range p.callees[c] {
-				if g == a.GetTime {
-					usesTime = true
-				}
-			}
+			// directly or through a helper that takes the decision
+			usesTime := a.GetTime != nil && p.reachCut([]*ssa.Function{c}, nil)[a.GetTime]
 			if usesTime {
 				a.GraceReaper = a.uniq(a.GraceReaper, c, "grace reaper")
 			} else {
